@@ -60,3 +60,34 @@ Definition idom_is_dominator_table (c : cfg) (idom : list (option N)) : bool :=
 (* both, as one answer for the driver *)
 Definition deg_graph_ok (c : cfg) (idom : list (option N)) : bool :=
   graph_consistent c && idom_is_dominator_table c idom.
+
+(* ---- decidable hypotheses of the theorems about DIVERGING runs (Proofs.DegRunDecided) ----
+     single_assignment_b c   every declared local that is not a parameter is the target of at
+                             most one statement of the graph
+     forward_b c             every successor has a larger index than its block: the graph is
+                             loop-free and its blocks are numbered along the edges, so every
+                             walk visits strictly increasing indices *)
+Require Import Model.Justify Model.DegJustify.
+
+Definition stores_local_m (c : cfg) (x : vname) : bool :=
+  match decl_of c x with Some TLocal => true | _ => false end && negb (is_param c x).
+
+Definition local_targets_m (c : cfg) : list vname :=
+  flat_map (fun st => match st with
+                      | SSubst _ x _ _ _ _ => if stores_local_m c x then [x] else []
+                      | _ => []
+                      end) (all_stmts (c_blocks c)).
+
+Fixpoint nodup_vnames (l : list vname) : bool :=
+  match l with
+  | [] => true
+  | x :: tl => negb (existsb (vname_eqb x) tl) && nodup_vnames tl
+  end.
+
+Definition single_assignment_b (c : cfg) : bool := nodup_vnames (local_targets_m c).
+
+Definition forward_b (c : cfg) : bool :=
+  forallb (fun ib => forallb (fun s => (fst ib <? N.to_nat s)%nat) (b_succs (snd ib)))
+          (combine (seq 0 (length (c_blocks c))) (c_blocks c)).
+
+Definition loop_free_ok (c : cfg) : bool := single_assignment_b c && forward_b c.
